@@ -27,7 +27,7 @@ ASSUMPTIONS = ["reporting a writable socket as not writable is behaviour select 
                "a reset has reached the manager's kernel before the round (the harness waits for it), so the write fails",
                "more than one notice per failure, or a notice for a subscriber the destination filter would skip, is "
                "not prohibited by the statement (counted as advisory)"]
-REQUIRE = {"manager_originated_undeliverable": 50, "undeliverable_events": 100, "notices_matched": 100, "notices_for_write_failures": 20, "logger_waits_checked": 10, "recursion_cases": 10}
+REQUIRE = {"nested_failures_checked": 30, "manager_originated_undeliverable": 50, "undeliverable_events": 100, "notices_matched": 100, "notices_for_write_failures": 20, "logger_waits_checked": 10, "recursion_cases": 10}
 CASE_TIMEOUT = 60
 T = 1234
 
@@ -110,9 +110,61 @@ def gen_cases(tier, seed):
         add(kind="mgr", k=k, nw=[i for i in range(k) if rng.random() < 0.4], logger=[rng.random() < 0.25 for _ in range(k)],
             suball=[rng.random() < 0.4 for _ in range(k)], rst=[i for i in range(k) if rng.random() < 0.35],
             trig=rng.choice(["name", "ready"]), mon_nw=False)
+    # a failure nested inside the delivery of a failure notice
+    for rep in range(8 if tier == "quick" else 400):
+        for x in ("nw", "rst"):
+            for y in ("nw", "rst"):
+                add(kind="nested", x=x, y=y, f_extra=bool(rep % 2), rep=rep)
     for i, c in enumerate(cases):
         c["tc"] = i % 5 == 4
     return cases
+
+
+def build_nested(c):
+    """a failure inside the delivery of a failure notice: x cannot be given the publication (not writable / reset); the
+    notice about that goes to the monitors m and f; f has just been reset, so the manager drops it and publishes
+    CLIENT_CLOSED - which y, its subscriber, cannot be given either. Both losses have to be reported to m."""
+    steps = []
+    for L, mid in (("p", 10), ("m", 11), ("x", 20), ("f", 21), ("y", 22)):
+        steps += [["open", L], ["hello", L, {"mod_id": mid}]]
+    steps.append(["drain"])
+    steps += [["sub", "m", W.MT_FAILED_MESSAGE], ["sub", "f", W.MT_FAILED_MESSAGE], ["sub", "x", T], ["sub", "y", W.MT_CLIENT_CLOSED]]
+    if c["f_extra"]:
+        steps.append(["sub", "f", W.MT_CLIENT_INFO])
+    steps.append(["drain"])
+    dead = ["f"] + (["x"] if c["x"] == "rst" else []) + (["y"] if c["y"] == "rst" else [])
+    for L in dead:
+        steps += [["close", L, "rst"], ["await_closed", L]]
+    steps.append(["pub", "p", T, 0, 0, 16])
+    nw = (["x"] if c["x"] == "nw" else []) + (["y"] if c["y"] == "nw" else [])
+    steps.append(["round", {"only": ["p"], "order": ["p"], "nw": nw, "adv": 0.001}])
+    steps.append(["drain", {"adv": 0.001}])
+    return steps
+
+
+def judge_nested(sc, c):
+    res = {"violations": [], "counters": {}, "sets": {}, "sig": sig_of({k: c[k] for k in c if k not in ("n",)}), "nontrivial": True}
+    V, C = res["violations"], res["counters"]
+    if sc.crashed or sc.hung:
+        V.append({"mech": "manager_died", "detail": (sc.rig.crash or "hung")[-800:]})
+        return res
+    if sc.problems:
+        res["inconclusive"] = "; ".join(sc.problems[:3])
+        return res
+    rx = sc.received()
+    seen = [(n["dest_mod_id"], n["h_type"]) for n in (W.unpack_failed(f.payload) for f in rx["m"]["frames"]
+                                                      if f.msg_type == W.MT_FAILED_MESSAGE and f.src_mod == 0 and len(f.payload) == 64)]
+    C["nested_failures_checked"] = 1
+    C["undeliverable_events"] = 2
+    if (20, T) not in seen:
+        V.append({"mech": "silent_loss_not_writable" if c["x"] == "nw" else "silent_loss_write_failure",
+                  "detail": f"nested case {c['x']}/{c['y']}: no FAILED_MESSAGE names module 20 for type {T}; monitor saw {seen}"})
+    if (22, W.MT_CLIENT_CLOSED) not in seen:
+        V.append({"mech": "silent_loss_inside_notice_delivery",
+                  "detail": f"the notice about module 20 could not be written to the reset monitor (module 21); its CLIENT_CLOSED could not be given to "
+                            f"module 22 ({'not writable' if c['y'] == 'nw' else 'reset'}) and no FAILED_MESSAGE names module 22; monitor saw {seen}"})
+    res["sets"]["fault_shape"] = [["nested", c["x"], c["y"], c["f_extra"]]]
+    return res
 
 
 def build_mgr(c):
@@ -210,6 +262,9 @@ def run_case(case, tier):
     try:
         sc = Scenario(rig, 0)
         sc.vary_source = True
+        if case.get("kind") == "nested":
+            sc.run(build_nested(case))
+            return judge_nested(sc, case)
         if case.get("kind") == "mgr":
             sc.run(build_mgr(case))
             return judge_mgr(sc, dict(case, _loud=bool(case.get("n", 0) % 4 == 2)))
